@@ -7,7 +7,7 @@
    zero pivot column is decided by Signed::abs and PartialOrd::gt (with abs = const 0 the code's LU is not a factorisation). *)
 From Coq Require Import List Arith.
 From OV Require Import Base.Panic Base.Arith Inst.QcInst Model.Vector Model.Matrix Model.Solve
-  Proofs.Matrix Proofs.LUPrim Proofs.LUSum Proofs.LU Proofs.LUQc.
+  Proofs.Matrix Proofs.LUPrim Proofs.LUSum Proofs.LU Proofs.LUSolve Proofs.LUInv Proofs.LUQc.
 Import ListNotations.
 
 Theorem lu_spec : forall (A : Arith), FieldLaws A -> PivLaws A -> forall M : matrix A, wf M -> rows M = cols M ->
@@ -25,3 +25,32 @@ Print Assumptions lu_spec.
 (* non-vacuity: the laws hold at Qc and a 3x3 rational matrix with a zero leading entry meets the hypotheses and needs two exchanges *)
 Example lu_spec_nonvacuous : PivLaws AQ /\ wf M3 /\ rows M3 = cols M3 /\ exists LU P, lu_decomp M3 = Ok (LU, 2, P).
 Proof. split; [exact AQ_PivLaws|]. split; [reflexivity|]. split; [reflexivity|]. eexists; eexists. vm_compute. reflexivity. Qed.
+
+(* inverse: whatever it returns is a right inverse (a zero pivot makes the code panic on the exact types: then there is no N).
+   The left-inverse half (inverse_two_sided) is in Bridge (mathcomp, mulmx1C). *)
+Theorem inverse_right : forall (A : Arith), FieldLaws A -> PivLaws A -> forall M N : matrix A, wf M -> rows M = cols M ->
+  inverse M = Ok N ->
+  shape N (rows M) (rows M) /\
+  forall i j, i < rows M -> j < rows M -> mprod (rows M) (ent M) (ent N) i j = delta i j.
+Proof. intros A FL PL M N. exact (inverse_right_lemma FL PL M N). Qed.
+Check inverse_right : forall (A : Arith), FieldLaws A -> PivLaws A -> forall M N : matrix A, wf M -> rows M = cols M ->
+  inverse M = Ok N ->
+  shape N (rows M) (rows M) /\
+  forall i j, i < rows M -> j < rows M -> mprod (rows M) (ent M) (ent N) i j = delta i j.
+Print Assumptions inverse_right.
+Example inverse_right_nonvacuous : wf M3 /\ rows M3 = cols M3 /\ exists N, inverse M3 = Ok N.
+Proof. split; [reflexivity|]. split; [reflexivity|]. eexists. vm_compute. reflexivity. Qed.
+
+(* the LU half of C01 (pinned in Props/C01.v by the coordinator): solve_lu is sound *)
+Theorem solve_lu_sound_c02 : forall (A : Arith), FieldLaws A -> PivLaws A -> forall (M : matrix A) (b x : list A),
+  wf M -> rows M = cols M -> length b = rows M -> solve_lu M b = Ok x ->
+  length x = rows M /\
+  forall i, i < rows M -> mvprod (rows M) (ent M) (fun k => nth k x zero) i = nth i b zero.
+Proof. intros A FL PL M b x. exact (solve_lu_sound_lemma FL PL M b x). Qed.
+Check solve_lu_sound_c02 : forall (A : Arith), FieldLaws A -> PivLaws A -> forall (M : matrix A) (b x : list A),
+  wf M -> rows M = cols M -> length b = rows M -> solve_lu M b = Ok x ->
+  length x = rows M /\
+  forall i, i < rows M -> mvprod (rows M) (ent M) (fun k => nth k x zero) i = nth i b zero.
+Print Assumptions solve_lu_sound_c02.
+Example solve_lu_sound_nonvacuous : wf M3 /\ rows M3 = cols M3 /\ exists x, solve_lu M3 [q 1 1; q 2 1; q 3 1] = Ok x.
+Proof. split; [reflexivity|]. split; [reflexivity|]. eexists. vm_compute. reflexivity. Qed.
